@@ -49,7 +49,7 @@ func TestVF_C10_RoundTrip(t *testing.T) {
 	st.Note("advertised_pairs", len(pairs))
 	rapid.Check(t, func(t *rapid.T) {
 		st.Eval()
-		kv := rapid.SampledFrom(pairs).Draw(t, "kv")
+		kv := pairs[vfc10gen.Pick(t, "kv", len(pairs))]
 		req := vfc10gen.NewRequest(kv.Key, kv.Version)
 		if req == nil {
 			t.Fatalf("advertised api key %d is unknown to the client codec", kv.Key)
